@@ -28,7 +28,9 @@ def graph_case(draw):
             continue
         nodes.append({"id": i, "async": draw(st.booleans()), "deps": deps, "msg": draw(st.integers(0, 2)) == 0, "tag": f"n{i}",
                       "fails": False, "msg_pos": draw(st.integers(0, 3)), "dflt": draw(st.booleans()),
-                      "suspend": draw(st.booleans())})
+                      "suspend": draw(st.booleans()),
+                      # the value a provider returns may be anything - also an exception *object* (returned, not raised)
+                      "as_exc": draw(st.integers(0, 7)) == 0})
     actor_deps = draw(st.lists(st.integers(0, n - 1), min_size=1, max_size=3, unique=True))
     overrides = []
     for _ in range(draw(st.integers(0, 2))):
@@ -46,7 +48,7 @@ def graph_case(draw):
 
 
 def provider_source(name: str, tag: str, is_async: bool, deps: list, msg: bool, fails: bool, msg_pos: int = 99,
-                    dflt: bool = False, suspend: bool = False) -> str:
+                    dflt: bool = False, suspend: bool = False, as_exc: bool = False) -> str:
     params = [f"d{j}: Annotated[str, DEP[{j}]]" for j in deps]
     if msg:
         # the message dependency may be declared anywhere among the annotated ones
@@ -59,7 +61,10 @@ def provider_source(name: str, tag: str, is_async: bool, deps: list, msg: bool, 
         body += "    await SLEEP(0.01)\n"  # other messages are processed meanwhile
     if fails:
         body += f"    raise RuntimeError('provider {tag} failed')\n"
-    body += f"    return f\"{tag}({','.join(parts)})\"\n"
+    if as_exc:
+        body += f"    return LookupError(f\"{tag}({','.join(parts)})\")\n"  # str() of it is the same text
+    else:
+        body += f"    return f\"{tag}({','.join(parts)})\"\n"
     return f"{'async ' if is_async else ''}def {name}({', '.join(params)}):\n{body}"
 
 
@@ -80,7 +85,7 @@ def build(case: dict, rec: list, calls: list):
             cur[nd["id"]] = dict(cur[nd["alias_of"]])
             continue
         src = provider_source(f"prov{nd['id']}", nd["tag"], nd["async"], nd["deps"], nd["msg"], fail_root == nd["id"],
-                              nd.get("msg_pos", 99), nd.get("dflt", False), nd.get("suspend", False))
+                              nd.get("msg_pos", 99), nd.get("dflt", False), nd.get("suspend", False), nd.get("as_exc", False))
         exec(compile(src, "<provider>", "exec"), ns)  # noqa: S102
         DEP[nd["id"]] = Depends(ns[f"prov{nd['id']}"])
         cur[nd["id"]] = dict(nd, fails=fail_root == nd["id"])
@@ -89,7 +94,7 @@ def build(case: dict, rec: list, calls: list):
         params.insert(min(case.get("actor_msg_pos", 99), len(params)), "m: MessageDependency")
     params.append("x: int = 0")
     names = [f"p{j}" for j in case["actor_deps"]]
-    recd = ", ".join(f"{n!r}: {n}" for n in names)
+    recd = ", ".join(f"{n!r}: str({n})" for n in names)
     src = (f"async def actor({', '.join(params)}):\n    REC.append({{'deps': {{{recd}}}, 'x': x"
            f"{', ' + repr('m') + ': m.key.id_' if case['actor_msg'] else ''}}})\n    return 1\n")
     exec(compile(src, "<actor>", "exec"), ns)  # noqa: S102
